@@ -34,6 +34,7 @@ int vnadata_set_fz0_vector(vnadata_t *vdp, int findex,
 	const double complex *z0_vector)
 {
     vnadata_internal_t *vdip;
+    double complex *z0_copy = NULL;
     int ports;
 
     if (vdp == NULL) {
@@ -52,7 +53,24 @@ int vnadata_set_fz0_vector(vnadata_t *vdp, int findex,
     }
     ports = MAX(vdp->vd_rows, vdp->vd_columns);
     if (!(vdip->vdi_flags & VF_PER_F_Z0)) {
+	/*
+	 * The conversion frees the simple z0 vector, which is what
+	 * vnadata_get_z0_vector and vnadata_get_fz0_vector return when
+	 * frequency-dependent impedances are not in use: take the
+	 * caller's values first in case z0_vector points into it.
+	 */
+	if (ports > 0) {
+	    if ((z0_copy = malloc(ports * sizeof(double complex))) == NULL) {
+		_vnadata_error(vdip, VNAERR_SYSTEM,
+			"malloc: %s", strerror(errno));
+		return -1;
+	    }
+	    (void)memcpy((void *)z0_copy, (void *)z0_vector,
+		    ports * sizeof(double complex));
+	    z0_vector = z0_copy;
+	}
 	if (_vnadata_convert_to_fz0(vdip) == -1) {
+	    free((void *)z0_copy);
 	    return -1;
 	}
     }
@@ -60,5 +78,6 @@ int vnadata_set_fz0_vector(vnadata_t *vdp, int findex,
 	(void)memcpy((void *)vdip->vdi_z0_vector_vector[findex],
 		(void *)z0_vector, ports * sizeof(double complex));
     }
+    free((void *)z0_copy);
     return 0;
 }
